@@ -137,7 +137,9 @@ def check_arm(cx, rep, f, where, g, cls, inst, trait):
     else:
         helper = g.conv[0].split('::')[-1] if not g.conv[0].startswith('Bound::') else g.conv[0]
         hc = HELPER_CLASS.get(helper)
-        if hc != cls or g.conv[1] != ['&meta']:
+        subj = [p_[0] for p_ in f.params() if p_[0] != 'self'][:1]
+        on_subject = len(g.conv_terms) == 1 and isinstance(g.conv_terms[0], tuple) and (g.conv_terms[0][0] == 'cparam' or g.conv_terms[0] == ('param', subj[0] if subj else None))
+        if hc != cls or not on_subject:
             rep.bad('PARAM', where, inst + '-conversion', 'parameter `%s` takes a %s value but is converted with `%s(%s)`' % (g.names[0], cls, g.conv[0], ', '.join(g.conv[1])), f.file, g.line)
         else:
             rep.ok('PARAM', '%s|%s|conversion=%s' % (where, inst, cls))
